@@ -12,6 +12,7 @@ import (
 	"bytes"
 	"fmt"
 	"reflect"
+	"runtime"
 	"strings"
 	"sync"
 	"time"
@@ -299,9 +300,28 @@ type VerifC04Hook struct {
 	Closing  bool // bp.closing != nil
 	Retrying bool // bp.currentRetries[topic][partition] != nil
 	AddErr   bool // return.error: the error is one of produceSet.add (sequence assertion, encoder error)
+	HasSeq   bool  // msg.hasSequence at the hook point (idempotent producer: the message carries a sequence number)
+	Goid     int64 // goroutine that reached the hook point
+}
+
+func verifC04Goid() int64 {
+	var buf [64]byte
+	n := runtime.Stack(buf[:], false)
+	var id int64
+	for _, c := range buf[len("goroutine "):n] {
+		if c < '0' || c > '9' {
+			break
+		}
+		id = id*10 + int64(c-'0')
+	}
+	return id
 }
 
 func verifC04Decorate(hk *VerifC04Hook, kind string, args []interface{}) {
+	hk.Goid = verifC04Goid()
+	if hk.Msg != nil {
+		hk.HasSeq = hk.Msg.hasSequence
+	}
 	for _, a := range args {
 		switch v := a.(type) {
 		case *brokerProducer:
@@ -328,7 +348,7 @@ func VerifC04Observe(f func(VerifC04Hook)) {
 	}
 	VerifSetObserver(func(kind string, args ...interface{}) {
 		switch kind {
-		case "bp.add", "tp.forward", "bp.recv", "bp.waitForSpace", "retry.enqueue", "return.error":
+		case "bp.add", "tp.forward", "bp.recv", "bp.waitForSpace", "retry.enqueue", "return.error", "return.success", "pp.send":
 			m, ok := args[0].(*ProducerMessage)
 			if !ok || m == nil {
 				return
